@@ -79,9 +79,20 @@ package engine
 //@   guard return in loop 3: err != nil
 //@   loop 2 atback e.options.createdFactLimit > 0 ==> len(newsolutions) <= e.options.createdFactLimit
 
+// A premise is recursive for a stratum when it is a positive atom (bare or temporally annotated) over a predicate
+// declared in the stratum. Every recursive premise of a rule gets its own delta rule: nRec counts them.
+//@ spec func posAtom(t ast.Term) bool = t is ast.Atom || (t is ast.TemporalLiteral && (t as ast.TemporalLiteral).Literal is ast.Atom)
+//@ spec func posPred(t ast.Term) ast.PredicateSym = t is ast.Atom ? (t as ast.Atom).Predicate : ((t as ast.TemporalLiteral).Literal as ast.Atom).Predicate
+//@ spec func recPremise(decls map[ast.PredicateSym]*ast.Decl, t ast.Term) bool = posAtom(t) && posPred(t).Symbol != "" && !posPred(t).IsBuiltin() && posPred(t) in decls
+//@ spec func nRec(decls map[ast.PredicateSym]*ast.Decl, ps []ast.Term, n int) int = n <= 0 ? 0 : nRec(decls, ps, n - 1) + (recPremise(decls, ps[n-1]) ? 1 : 0)
+
 //@ func makeDeltaRules(decls, predToRules)
-//@   trusted
 //@   modifies nothing
+//@   opt nosafety
+//@   loop 3 invariant len(deltaRules) == nRec(decls, clause.Premises, rangeindex#2 + 1)
+//@   loop 3 invariant forall k int :: 0 <= k && k < len(deltaRules) ==> exists j int :: 0 <= j && j < rangeindex#2 + 1 && recPremise(decls, clause.Premises[j]) && deltaRules[k] == makeSingleDeltaRule(clause, j)
+//@   loop 3 atexit len(deltaRules) == nRec(decls, clause.Premises, len(clause.Premises))
+//@   guard call makeSingleDeltaRule: arg0 == clause && recPremise(decls, clause.Premises[arg1])
 
 // C17: every early exit of the first round and of the incremental rounds reports an error, and while rounds
 // continue the store stays within the total fact limit.
@@ -98,3 +109,78 @@ package engine
 //@   requires store != nil
 //@   opt nosafety
 //@   guard call evalStrata: e.options.createdFactLimit > 0 ==> e.options.totalFactLimit == factstore.fcount(e.store) + e.options.createdFactLimit
+
+// ---- C20: the naive and the semi-naive evaluator solve a premise the same way ---------------------------------
+// The solutions of a negated atom, an equality and an inequality under a substitution are fixed by the three
+// shared premise functions. Their meaning is ABSTRACTED: each is assumed to be a function of its arguments and of
+// the set of facts the store denotes (bodies not verified: unification and store callbacks).
+//@ spec func solNeg(a ast.Atom, v set[ast.Atom], s unionfind.UnionFind) []unionfind.UnionFind
+//@ spec func errNeg(a ast.Atom, v set[ast.Atom], s unionfind.UnionFind) bool
+//@ spec func solEq(l ast.BaseTerm, r ast.BaseTerm, s unionfind.UnionFind) []unionfind.UnionFind
+//@ spec func errEq(l ast.BaseTerm, r ast.BaseTerm, s unionfind.UnionFind) bool
+//@ spec func solIneq(l ast.BaseTerm, r ast.BaseTerm, s unionfind.UnionFind) []unionfind.UnionFind
+//@ spec func errIneq(l ast.BaseTerm, r ast.BaseTerm, s unionfind.UnionFind) bool
+
+//@ func premiseNegAtom(a, store, subst)
+//@   trusted
+//@   requires store != nil
+//@   modifies nothing
+//@   ensures (err != nil) == errNeg(a, factstore.view(store), subst)
+//@   ensures err == nil ==> result == solNeg(a, factstore.view(store), subst)
+
+//@ func premiseEq(left, right, subst)
+//@   trusted
+//@   modifies nothing
+//@   ensures (err != nil) == errEq(left, right, subst)
+//@   ensures err == nil ==> result == solEq(left, right, subst)
+
+//@ func premiseIneq(left, right, subst)
+//@   trusted
+//@   modifies nothing
+//@   ensures (err != nil) == errIneq(left, right, subst)
+//@   ensures err == nil ==> result == solIneq(left, right, subst)
+
+// Both evaluators answer these three kinds of premise by exactly those solutions, against the whole store; the
+// naive one has no error result and treats an evaluation error as "no solution".
+//@ func (e naiveEngine) oneStepEvalPremise(premise, subst)
+//@   requires e.store != nil
+//@   opt nosafety
+//@   ensures premise is ast.NegAtom ==> (errNeg((premise as ast.NegAtom).Atom, factstore.view(e.store), subst) ? len(result) == 0 : result == solNeg((premise as ast.NegAtom).Atom, factstore.view(e.store), subst))
+//@   ensures premise is ast.Eq ==> (errEq((premise as ast.Eq).Left, (premise as ast.Eq).Right, subst) ? len(result) == 0 : result == solEq((premise as ast.Eq).Left, (premise as ast.Eq).Right, subst))
+//@   ensures premise is ast.Ineq ==> (errIneq((premise as ast.Ineq).Left, (premise as ast.Ineq).Right, subst) ? len(result) == 0 : result == solIneq((premise as ast.Ineq).Left, (premise as ast.Ineq).Right, subst))
+
+//@ func (e *engine) oneStepEvalPremise(premise, subst, clause)
+//@   requires e != nil && e.store != nil
+//@   opt nosafety
+//@   ensures premise is ast.NegAtom ==> (err != nil) == errNeg((premise as ast.NegAtom).Atom, factstore.view(e.store), subst) && (err == nil ==> result == solNeg((premise as ast.NegAtom).Atom, factstore.view(e.store), subst))
+//@   ensures premise is ast.Eq ==> (err != nil) == errEq((premise as ast.Eq).Left, (premise as ast.Eq).Right, subst) && (err == nil ==> result == solEq((premise as ast.Eq).Left, (premise as ast.Eq).Right, subst))
+//@   ensures premise is ast.Ineq ==> (err != nil) == errIneq((premise as ast.Ineq).Left, (premise as ast.Ineq).Right, subst) && (err == nil ==> result == solIneq((premise as ast.Ineq).Left, (premise as ast.Ineq).Right, subst))
+
+// ---- C01 / C20: delta rules -------------------------------------------------------------------------------
+// A delta rule is the rule itself with exactly one premise restricted to the facts of the last round: same head,
+// same temporal annotation of the head, same transform, every other premise unchanged.
+//@ func makeDeltaAtom(atom)
+//@   pure
+//@   trusted
+//@   modifies nothing
+
+//@ func makeSingleDeltaRule(rule, i)
+//@   pure
+//@   modifies nothing
+//@   ensures result.Head == rule.Head && result.HeadTime == rule.HeadTime && result.Transform == rule.Transform
+//@   ensures len(result.Premises) == len(rule.Premises)
+//@   ensures forall j int :: 0 <= j && j < len(rule.Premises) && j != i ==> result.Premises[j] == rule.Premises[j]
+//@   ensures 0 <= i && i < len(rule.Premises) && rule.Premises[i] is ast.Atom ==> result.Premises[i] is ast.Atom && (result.Premises[i] as ast.Atom) == makeDeltaAtom(rule.Premises[i] as ast.Atom)
+//@   ensures 0 <= i && i < len(rule.Premises) && rule.Premises[i] is ast.TemporalLiteral && (rule.Premises[i] as ast.TemporalLiteral).Literal is ast.Atom ==>
+//@             result.Premises[i] is ast.TemporalLiteral && (result.Premises[i] as ast.TemporalLiteral).Operator == (rule.Premises[i] as ast.TemporalLiteral).Operator &&
+//@             (result.Premises[i] as ast.TemporalLiteral).Interval == (rule.Premises[i] as ast.TemporalLiteral).Interval &&
+//@             (result.Premises[i] as ast.TemporalLiteral).Literal is ast.Atom &&
+//@             ((result.Premises[i] as ast.TemporalLiteral).Literal as ast.Atom) == makeDeltaAtom((rule.Premises[i] as ast.TemporalLiteral).Literal as ast.Atom)
+//@   loop 1 invariant len(newpremises) == rangeindex + 1
+//@   loop 1 invariant forall k int :: 0 <= k && k < rangeindex + 1 && k != i ==> newpremises[k] == rule.Premises[k]
+//@   loop 1 invariant 0 <= i && i < rangeindex + 1 && rule.Premises[i] is ast.Atom ==> newpremises[i] is ast.Atom && (newpremises[i] as ast.Atom) == makeDeltaAtom(rule.Premises[i] as ast.Atom)
+//@   loop 1 invariant 0 <= i && i < rangeindex + 1 && rule.Premises[i] is ast.TemporalLiteral && (rule.Premises[i] as ast.TemporalLiteral).Literal is ast.Atom ==>
+//@             newpremises[i] is ast.TemporalLiteral && (newpremises[i] as ast.TemporalLiteral).Operator == (rule.Premises[i] as ast.TemporalLiteral).Operator &&
+//@             (newpremises[i] as ast.TemporalLiteral).Interval == (rule.Premises[i] as ast.TemporalLiteral).Interval &&
+//@             (newpremises[i] as ast.TemporalLiteral).Literal is ast.Atom &&
+//@             ((newpremises[i] as ast.TemporalLiteral).Literal as ast.Atom) == makeDeltaAtom((rule.Premises[i] as ast.TemporalLiteral).Literal as ast.Atom)
